@@ -418,6 +418,7 @@ func (h *Session) onlineTransition(host *Host) {
 	}
 
 	host.MACEntry.Online = true
+	verifGate("ot.mid")
 	host.Online = true
 	host.dirty = true
 
